@@ -149,6 +149,21 @@ Section Run.
                                 | _ => res_sexp newgroup_sexp (new_group cx (dec_mode mode) d f) end]
                          end) news)]
         end
+    | "c03", [SAtom formula; fr; na; extra] =>
+        L [res_sexp design_sexp (build_design formula fr na extra);
+           res_sexp (fun p => L [L (map (fun x => L [A (fst x); AN (snd x)]) (fst p));
+                                 L (map (fun x => L [A (fst x); AN (snd x)]) (snd p))])
+                    (do e <- parse_string formula;
+                     do m <- describe e;
+                     match dec_frame fr with
+                     | Some f => do d <- prepare_data f m NaDrop;
+                                 coding_counts (DCtx (dec_extra extra) ksqrt) d m
+                     | None => Err EAssert end)]
+    | "code", [SAtom enc; ref; SAtom spans; SList levels] =>
+        let r := match ref with SAtom x => Some x | SList _ => None end in
+        let e := if String.eqb enc "sum" then Sum r else Treatment r in
+        res_sexp (fun c => L [L (map (fun row => L (map AZ row)) (cmatrix c)); strs_sexp (clabels c)])
+                 (code e (String.eqb spans "full") (dec_atoms levels))
     | _, _ => TransformsCmd.transforms_cmd cmd args
     end.
 
